@@ -8,6 +8,7 @@ import PaneModel.Model.Pane
 import PaneModel.Lemmas.RoundTripDefs
 import PaneModel.Model.IO
 import PaneModel.Model.Broadcast
+import PaneModel.Model.C3
 /-!
 # Line-protocol driver: one JSON scenario per input line, one JSON result per output line.
 Run with `lake env lean --run Driver.lean` (or as the compiled `driver` executable).
@@ -924,6 +925,14 @@ def runOp (sc : Scen) (j : Json) : P Json := do
     match Rename.splitStr name with
     | some ps => pure (Json.mkObj [("ok", .arr (ps.map Json.str).toArray)])
     | none => pure (Json.mkObj [("raises", "ValueError")])
+  | "c3" =>
+    -- Python's C3 linearisation: the class, its direct bases and the bases' own linearisations (same order)
+    let cls ← jstr (← jfield j "cls")
+    let bases ← (← jarr (← jfield j "bases")).toList.mapM jstr
+    let lins ← (← jarr (← jfield j "lins")).toList.mapM fun l => do (← jarr l).toList.mapM jstr
+    match C3.linearize cls bases lins with
+    | some l => pure (Json.mkObj [("mro", .arr (l.map Json.str).toArray)])
+    | none => pure (Json.mkObj [("mro", .null)])
   | _ => throw s!"unknown op {op}"
 
 def handleLine (line : String) : String :=
